@@ -21,10 +21,13 @@ import (
 )
 
 type pathStream struct {
-	Tag        uint64 `json:"tag"`
-	Up         []int  `json:"up_writes"`
-	Down       []int  `json:"down_writes"`
-	CloseBy    string `json:"closed_by"` // app, proxy
+	Tag     uint64 `json:"tag"`
+	Up      []int  `json:"up_writes"`
+	Down    []int  `json:"down_writes"`
+	CloseBy string `json:"closed_by"` // app, proxy
+	// Delay: the application connects at once but says nothing for this long (a pre-connected or
+	// slow client); other connections arrive and talk meanwhile
+	Delay      time.Duration `json:"first_write_after,omitempty"`
 	mu         sync.Mutex
 	upGot      int64
 	downGot    int64
@@ -147,6 +150,9 @@ func pathPlan(rng *mrand.Rand, n int, budget int, closeFocus bool) []*pathStream
 			s.Down = nil
 		}
 		s.CloseBy = []string{"app", "proxy"}[rng.IntN(2)]
+		if rng.IntN(3) == 0 {
+			s.Delay = time.Duration(1+rng.IntN(8000)) * time.Millisecond
+		}
 		if len(s.Down) == 0 {
 			s.CloseBy = "app"
 		}
@@ -262,6 +268,9 @@ func pathRun(t *testing.T, r *vk.Reporter, id string, c *pathCase) (kind, detail
 			tu, td := psum(s.Up), psum(s.Down)
 			go func() {
 				var off int64
+				if s.Delay > 0 {
+					time.Sleep(s.Delay)
+				}
 				for _, sz := range s.Up {
 					b := make([]byte, sz)
 					pathFill(s.Tag, tu, td, off, b)
